@@ -87,6 +87,9 @@ type op struct {
 	// bandwidth feedback raises the wanted temporal layer to 1 between the
 	// first and the second packet of this frame (what adjustLayer does)
 	Raise bool `json:"raise,omitempty"`
+	// the publisher's sequence numbers jump by 10000 before this frame (an
+	// outage): the sequence map starts afresh, and so does the picture-id shift
+	Jump bool `json:"jump,omitempty"`
 }
 
 type world struct {
@@ -100,6 +103,7 @@ type world struct {
 	outcome  string
 	hist     []op
 	raised   bool
+	jumped   bool
 	// the last two forwarded packets: source buffer and the payload that was
 	// sent (a receiver may ask for them again: gotNACK re-runs Write on the
 	// cached source packet)
@@ -151,6 +155,9 @@ func (w *world) Ops() []seqx.Op {
 	// a retransmission of the last / last but one forwarded packet
 	for k := range w.sent {
 		ops = append(ops, op{N: 0, Tid: k})
+	}
+	if w.sh.Codec == "vp8" && w.sh.X && w.sh.I && w.sh.T && !w.sh.Parts && w.frames > 1 && !w.jumped {
+		ops = append(ops, op{N: 1, Tid: 0, Jump: true})
 	}
 	if w.sh.Parts && w.frames > 0 && !w.raised {
 		ops = append(ops, op{N: 2, Tid: 1, Raise: true})
@@ -271,6 +278,12 @@ func (w *world) Apply(x seqx.Op) *core.Violation {
 		return nil
 	}
 	w.hist = append(w.hist, o)
+	if o.Jump {
+		w.seq += 10000
+		w.jumped = true
+		w.withheld = 0
+		w.sent = nil
+	}
 	pkts := w.frame(o)
 	codec := codecOf(w.sh).MimeType
 	forwardedAny, withheldAny := false, false
@@ -438,6 +451,9 @@ func (w *world) Canon() string {
 	fmt.Fprintf(&b, "#%d/%d/%d/%d", w.frames, w.withheld, w.seq, len(w.sent))
 	if w.raised {
 		fmt.Fprintf(&b, "#L%v", w.w.Down.Layer())
+	}
+	if w.jumped {
+		b.WriteString("#J")
 	}
 	return b.String()
 }
